@@ -143,6 +143,20 @@ def run(ctx):
             o = {"type": typ, "priv": True, "format": fmt, "pkcs": pk, "prot": "valid" if pk8 else "none", "pp": pk8, "compress": False, "pass": "some"}
             name = "PBKDF2WithHMAC-SHA1AndDES-EDE3-CBC" if len(pw) < 100 else "PBKDF2WithHMAC-SHA512AndAES256-CBC"
             add(kid, o, scheme=(name, sch[name]), pp={"iteration_count": 2} if pk8 else None, pw=pw, pwstr=pwstr, more_wrong=True, why="passphrase shapes")
+    # text passphrases with characters outside ASCII, every key class through its protected containers: exported and imported with the same str
+    texts = ["caf\u00e9", "p\u00e4ss w\u00f6rd", "\u00ff\u0080x", "\u00a3100"]
+    tgt = [("rsa512_bige", "RSA", "PEM", "legacy"), ("rsa512_bige", "RSA", "DER", "pkcs8"), ("dsa1024_seed", "DSA", "PEM", "legacy"), ("dsa1024_seed", "DSA", "PEM", "pkcs8"),
+           ("dsa1024_seed", "DSA", "DER", "pkcs8"), ("P-224_d0", "Ws", "PEM", "legacy"), ("P-256_yodd", "WsSsh", "DER", "pkcs8"), ("Ed25519_xodd", "EdSsh", "PEM", "pkcs8"),
+           ("Curve448_x0", "Mt", "DER", "pkcs8")]
+    for j, (kid, typ, fmt, pk) in enumerate(tgt):
+        pk8 = pk == "pkcs8"
+        for text in ([texts[(j + ctx.seed) % len(texts)]] if quick else texts):
+            o = {"type": typ, "priv": True, "format": fmt, "pkcs": pk, "prot": "valid" if pk8 else "none", "pp": pk8 and typ != "DSA", "compress": False, "pass": "some"}
+            name = "PBKDF2WithHMAC-SHA1AndDES-EDE3-CBC" if j % 2 else "PBKDF2WithHMAC-SHA256AndAES128-CBC"
+            if name not in sch:
+                name = sorted(sch)[0]
+            add(kid, o, scheme=(name, sch[name]), pp={"iteration_count": 2} if (pk8 and typ != "DSA") else None, pw=text.encode("latin-1"), more_wrong=False, why="text passphrase outside ASCII")
+            jobs[-1]["pwtext"] = text
     # ---- 3. record
     traces = ctx.drive("c08_keys", ["run"], inp={"jobs": jobs, "pairs": pairs, "extra_pairs": True, "foreign": True}, timeout=3000)
     if len(traces) < len(jobs) + len(pairs):
